@@ -98,10 +98,10 @@ impl PropCase for Chain {
                             let bk = boundary_kind(ev);
                             ctx.bump(&format!("floor:boundary:{}", bk));
                             if before_last.zero_cache > 0 {
-                                ctx.bump(&format!("floor:dirty-zeros:{}", bk));
+                                ctx.bump(&format!("hook:dirty-zeros:{}", bk));
                             }
                             if before_last.buf_len > 0 {
-                                ctx.bump(&format!("floor:dirty-buffer:{}", bk));
+                                ctx.bump(&format!("hook:dirty-buffer:{}", bk));
                             }
                             let dc = before_last.dirty_class();
                             ctx.class_s(&format!("{} from {}", bk, dc));
@@ -118,10 +118,10 @@ impl PropCase for Chain {
                     a.reset();
                     ctx.bump("floor:boundary:reset");
                     if st.zero_cache > 0 {
-                        ctx.bump("floor:dirty-zeros:reset");
+                        ctx.bump("hook:dirty-zeros:reset");
                     }
                     if st.buf_len > 0 {
-                        ctx.bump("floor:dirty-buffer:reset");
+                        ctx.bump("hook:dirty-buffer:reset");
                     }
                     ctx.class_s(&format!("reset from {}", st.dirty_class()));
                 }
@@ -130,10 +130,10 @@ impl PropCase for Chain {
                     a.finalize();
                     ctx.bump("floor:boundary:finalize");
                     if st.zero_cache > 0 {
-                        ctx.bump("floor:dirty-zeros:finalize");
+                        ctx.bump("hook:dirty-zeros:finalize");
                     }
                     if st.buf_len > 0 {
-                        ctx.bump("floor:dirty-buffer:finalize");
+                        ctx.bump("hook:dirty-buffer:finalize");
                     }
                     ctx.class_s(&format!("finalize from {}", st.dirty_class()));
                 }
@@ -371,13 +371,11 @@ pub fn run(ctx: &mut Ctx) {
 }
 
 pub fn floors() -> Vec<String> {
+    // floors only on what is observed at the API (boundary kinds); the decoder-state classes just before a
+    // boundary come from the read-only hook and are evidence only (counters `hook:dirty-*`)
     let mut v = Vec::new();
     for b in ["delivered", "InvalidMessage", "InvalidEsc", "OutOfMemory", "reset", "finalize"] {
         v.push(format!("floor:boundary:{}", b));
-        v.push(format!("floor:dirty-buffer:{}", b));
-    }
-    for b in ["delivered", "InvalidMessage", "InvalidEsc", "reset", "finalize"] {
-        v.push(format!("floor:dirty-zeros:{}", b));
     }
     v
 }
